@@ -206,6 +206,13 @@ def check_C15(tier, seed):
     icls = [g for g in cores.class_catalogue() if '"i": true' in json.dumps(g)]
     for g in (icls[::2] if tier == "quick" else icls):
         cases.append(rel_case(g, ["C15"], op, op + ["-optimize-basic-latin"], suffix="_p"))
+    # every other subset X of the remaining generation flags, rotating over the classes (seeded start): (X, X + flag)
+    others = [["-optimize-grammar", "-optimize-parser"], ["-support-left-recursion"], ["-support-left-recursion", "-optimize-parser"],
+              ["-optimize-grammar", "-support-left-recursion"], ["-optimize-grammar", "-optimize-parser", "-support-left-recursion"]]
+    allc = cores.class_catalogue()
+    for k, g in enumerate(allc[(seed % 5)::(5 if tier == "quick" else 2)]):
+        x = others[(k + seed) % len(others)]
+        cases.append(rel_case(g, ["C15"], x, x + ["-optimize-basic-latin"], suffix="_x%d" % ((k + seed) % len(others))))
     cases.append(rel_case(cat[0], ["TWIN"], [], ["-optimize-basic-latin"], suffix="_twin"))
     catcheck.prepare(w, cases)
     agg = catcheck.explore(w, rep, cases[:-1], "C15", r"Harness_C15$", N, tmo, "rel", seed=seed,
@@ -281,8 +288,12 @@ def check_C12(tier, seed):
 
 
 def check_C17(tier, seed):
+    # the other generation flag sets, rotating over the catalogue (seeded start)
+    fsr = ["opt", "bl", "all", "lr"]
+    rot = [(g, fsr[(k + seed) % len(fsr)]) for k, g in enumerate(cores.utf8_catalogue())]
     return run_ref_property("C17", tier, seed, cores.utf8_catalogue(), ["C17"], 3, 4, unconstrained=True, tq=120, tt=1800,
-                            bounds_extra={"AllowInvalidUTF8": "symbolic"}, rnd=(8, 80, ()))
+                            bounds_extra={"AllowInvalidUTF8": "symbolic", "rotating_flag_sets": "one of opt, bl, all, lr per catalogue grammar in addition to std"}, rnd=(8, 80, ()),
+                            extra=rot if tier == "quick" else [(g, fs) for g in cores.utf8_catalogue() for fs in ("bl", "all", "lr")])
 
 
 def check_C02(tier, seed):
@@ -304,9 +315,11 @@ def check_C14(tier, seed):
 
 
 def check_C11(tier, seed):
+    fsr = ["opt", "bl", "all"]
+    rot11 = [(g, fsr[(k + seed) % len(fsr)]) for k, g in enumerate(cores.fault_catalogue())]
     return run_ref_property("C11", tier, seed, cores.fault_catalogue(), ["C11"], 3, 4, file_name="f%20x.txt", flagsets_q=("std",), tq=120, tt=1800,
                             bounds_extra={"fault_plan": "symbolic: per block slot, first two invocations in {none, errA, errB, panic}", "Recover": "symbolic"},
-                            rnd=(8, 80, ("fault",)), lemmas=["AddErr"], lemma_n=(2, 3), extra=[(g, "lr") for g in cores.fault_lr_catalogue()])
+                            rnd=(8, 80, ("fault",)), lemmas=["AddErr"], lemma_n=(2, 3), extra=[(g, "lr") for g in cores.fault_lr_catalogue()] + rot11)
 
 
 def check_C10(tier, seed):
@@ -332,6 +345,13 @@ def check_C10(tier, seed):
                 cases.append(rel_case(g, ["C10"], x, x + ["-optimize-parser"], suffix="_x%d" % k))
     for g in rnd_cat(tier, seed, 24, 250, ("state", "throw")):
         cases.append(rel_case(g, ["C10"], [], ["-optimize-parser"]))
+    # every subset X of the other generation flags, rotating over classes, composites and throw grammars: (X, X + flag)
+    bl, og, lrf = "-optimize-basic-latin", "-optimize-grammar", "-support-left-recursion"
+    others = [[bl, og], [lrf], [bl, lrf], [og, lrf], [bl, og, lrf], [bl]]
+    rot = cores.class_catalogue()[(seed % 4)::(8 if quick else 2)] + cores.composites() + cores.throw_catalogue()[::(3 if quick else 1)]
+    for k, g in enumerate(rot):
+        x = others[(k + seed) % len(others)]
+        cases.append(rel_case(g, ["C10"], x, x + ["-optimize-parser"], suffix="_r%d" % ((k + seed) % len(others))))
     twin = rel_case(pc[0], ["TWIN"], [], ["-optimize-parser"], suffix="_twin")
     catcheck.prepare(w, cases + [twin])
     agg = catcheck.explore(w, rep, cases, "C10", r"Harness_C10$", N, tmo, "rel", seed=seed, validate_pkgs=6 if quick else 20)
@@ -364,6 +384,17 @@ def check_C09(tier, seed):
         ents = g.get("entries") or [""]
         alt = [e for e in ents if e]
         cases.append(rel_case(g, ["C09"], [], ["-optimize-grammar"] + (["-alternate-entrypoints", ",".join(alt)] if alt else []), entries=ents))
+    # every subset X of the other generation flags, rotating over the optimizer catalogue and the composites: (X, X + flag)
+    opf, bl, lrf = "-optimize-parser", "-optimize-basic-latin", "-support-left-recursion"
+    others = [[opf], [bl], [opf, bl], [lrf], [opf, lrf], [bl, lrf], [opf, bl, lrf]]
+    rot = (cores.opt_catalogue() + cores.composites())[(seed % 3)::(3 if quick else 1)]
+    for k, g in enumerate(rot):
+        if any("known-if-not-type-checking" in t for t in g.get("tags", [])):
+            continue
+        x = others[(k + seed) % len(others)]
+        ents = g.get("entries") or [""]
+        alt = [e for e in ents if e]
+        cases.append(rel_case(g, ["C09"], x, x + ["-optimize-grammar"] + (["-alternate-entrypoints", ",".join(alt)] if alt else []), entries=ents, suffix="_r%d" % ((k + seed) % len(others))))
     twin = rel_case(cat[0], ["TWIN"], [], ["-optimize-grammar"], suffix="_twin")
     catcheck.prepare(w, cases + [twin])
     agg = catcheck.explore(w, rep, cases, "C09", r"Harness_C09$", N, tmo, "rel", seed=seed, validate_pkgs=6 if quick else 20)
